@@ -405,6 +405,15 @@ def saturate(mw=2, extra=1, timeout=None, kind="plain", cpu=2):
              pool(kind, mw, timeout, cpu_count=cpu), ops)
 
 
+def idle_exit_during_submit(mw=2, timeout=0.05):
+    """One worker busy, the other idle and about to time out; the last submit of the history
+    brings a second long task: whenever the idle worker leaves relative to that submit, the
+    pool must end up with both long tasks running."""
+    return P(f"idle-exit-during-submit-w{mw}", pool(max_workers=mw, timeout=timeout),
+             [NEW, sub("g0", "gate"), sub("a", "ok", 1), ["result", "a"], ["sleep", 0.01],
+              sub("g1", "gate"), ["expect_inside", 2], ["release", "g0"], ["release", "g1"], WAIT, shutdown(True)])
+
+
 def saturate_after_idle(mw=2, timeout=0.05):
     keys = [f"g{i}" for i in range(mw)]
     ops = [NEW, sub("a", "ok", 1), ["result", "a"], ["sleep", 0.2]]
